@@ -114,7 +114,7 @@ PROPS = {
     },
     'C06': {
         'props': ['theories/Props/C06.v'], 'deps': VERIFY_DEPS + ['theories/Theory/WriterFacts.v', 'theories/Model/Writer.v', 'gen/Writer.v'],
-        'streams': ['l3-write'],
+        'streams': ['l3-write', 'l5-edits'],
         'trusted_base': GOV_TB + ['translator reading of writer.go (emission plan, mandatory checks, Write/epilogue shape)', 'bufio.Writer: the destination is reached only by the final flush (modelled)'],
         'assumptions': COMMON_ASSUME,
     },
